@@ -228,6 +228,12 @@ fn c10_pass(sink: &mut Sink, rng: &mut Rng, thorough: bool) {
           sink.emit(&format!("st_validflat {}", st_txt(&out)), "true", !out.is_empty());
           // the exact entries against the transliterated sweep (`Merge2D.merge2`)
           sink.emit(&format!("st_merge {} {} {}", tt, ta, tb), &st_txt(&out), !(a.is_empty() && b.is_empty()));
+          // ... and its elements after `time_space_iter` (what the store and the CLI hand out)
+          let grouped = std::panic::catch_unwind(AssertUnwindSafe(|| from_moc2(RangeMOC2::new(DT_(), DS, o.time_space_iter(DT_(), DS).collect()))));
+          match grouped {
+            Ok(g) => { sink.emit(&format!("st_regroup {}", st_txt(&out)), &st_txt(&g), !out.is_empty()); sink.emit(&format!("st_valid {}", st_txt(&g)), "true", !g.is_empty()); }
+            Err(_) => sink.emit(&format!("st_regroup {}", st_txt(&out)), &panic_answer(), true),
+          }
         }
       }
     }
@@ -322,7 +328,17 @@ fn c09_pass(sink: &mut Sink, rng: &mut Rng, thorough: bool) {
         from_moc2(RangeMOC2::new(DT_(), DS, o.time_space_iter(DT_(), DS).collect()))
       }));
       sink.count("path:ranges2d-time_space_iter");
-      match res { Err(_) => sink.emit(&op, &panic_answer(), true), Ok(out) => { sink.emit(&op, &bits_of(&out), nobs > 1); } }
+      match res {
+        Err(_) => sink.emit(&op, &panic_answer(), true),
+        Ok(out) => {
+          sink.emit(&op, &bits_of(&out), nobs > 1);
+          // the exact elements against the transliterated `time_space_iter` (`Merge2D.regroup`) run on the flat result
+          if let Ok(o) = std::panic::catch_unwind(AssertUnwindSafe(|| TimeSpaceMoc::<u64, u64>::create_from_time_ranges_spatial_coverage(times.clone(), cov.clone(), DT_()))) {
+            sink.emit(&format!("st_regroup {}", st_txt(&from_flat(&o))), &st_txt(&out), nobs > 1);
+            sink.emit(&format!("st_valid {}", st_txt(&out)), "true", !out.is_empty());
+          }
+        }
+      }
     }
   }
 }
